@@ -344,7 +344,7 @@ CHECKS = {
     },
     "C24": {
         "pkg": "codec", "run": "^TestC24", "level": "exploration",
-        "shards": {"quick": 4, "thorough": 16}, "timeout": {"quick": 900, "thorough": 3600},
+        "shards": {"quick": 4, "thorough": 16}, "timeout": {"quick": 900, "thorough": 7200},
         "technique": "rapid property-based testing + native go fuzzing of the compressor: round-trip and corruption oracle under a hang watchdog",
         "level_text": "Payloads from 0 to 1 MiB x 4 algorithms (plus a large facet: 2^k + d bytes up to 128 MiB + 1, round trip only): Decompress(Compress(x)) == x with inputs unmodified, and a compressed form "
                       "handed out earlier stays byte-identical while the compressor is used again from the same instance, another instance and other goroutines; each of 1-3 damage steps (truncate, bit flips, window overwrite, "
